@@ -161,12 +161,14 @@ class DeleteRateCellsKeep(Contract):
 
 class FindElWithinNestedList(Contract):
     """find_el_within_nested_list(L, el) = the strictly ascending positions g of exactly the groups of L that contain el (the step
-    that translates original cell numbers into current row positions when an index list is threaded).  L is a list of symbolic
+    that translates original cell numbers into current row positions when an index list is threaded).  A helper-level contract:
+    its obligations are named `internal:*` -- a refutation alone is reported as undecided (the helper's interface is not part of the
+    property), it becomes a violation only if the bounded stage reproduces a property-level failure.  L is a list of symbolic
     length whose groups are integer lists of symbolic lengths (uninterpreted `group_len`, `group_member`)."""
     target = f"{REL}::find_el_within_nested_list"
     variants = ("nested-int-lists",)
     property_ids = ("C13",)
-    expected = ("post:positions-strictly-ascending", "post:every-position-holds-the-element", "post:no-holding-group-is-missed")
+    expected = ("internal:positions-strictly-ascending", "internal:every-position-holds-the-element", "internal:no-holding-group-is-missed")
 
     def setup(self, V, variant):
         ctx = V.ctx
@@ -190,26 +192,144 @@ class FindElWithinNestedList(Contract):
             return
         r = outcome[1]
         if not isinstance(r, Vec) or r.elem != "int":
-            V.oblige("post:returns-an-integer-array", False)
+            V.oblige("internal:returns-an-integer-array", False)
             return
         G, lenf, mem, el = env["G"], env["lenf"], env["mem"], env["el"]
         c = zint(r.length)
         k1, k2, j, g = z3.Int("k13f"), z3.Int("kk13f"), z3.Int("j13f"), z3.Int("g13f")
         at = lambda k: zint(to_num(vget(ctx, r, k)).z)
         holds = lambda grp: z3.Exists([j], z3.And(j >= 0, j < lenf(grp), mem(grp, j) == el))
-        V.oblige("post:positions-strictly-ascending", z3.Implies(z3.And(0 <= k1, k1 < k2, k2 < c), at(k1) < at(k2)))
-        V.oblige("post:every-position-holds-the-element", z3.Implies(z3.And(0 <= k1, k1 < c), z3.And(at(k1) >= 0, at(k1) < G, holds(at(k1)))))
+        V.oblige("internal:positions-strictly-ascending", z3.Implies(z3.And(0 <= k1, k1 < k2, k2 < c), at(k1) < at(k2)))
+        V.oblige("internal:every-position-holds-the-element", z3.Implies(z3.And(0 <= k1, k1 < c), z3.And(at(k1) >= 0, at(k1) < G, holds(at(k1)))))
         fo = getattr(r, "filter_of", None)
         if fo is None:
             raise Unsupported("result is not recognisable as np.where(...)[0] (filter contract)")
         inv = fo[3]
-        V.oblige("post:no-holding-group-is-missed", z3.Implies(z3.And(0 <= g, g < G, holds(g)), z3.And(0 <= inv(g), inv(g) < c, at(inv(g)) == g)))
-        V.oblige("post:one-dimensional-no-longer-than-the-list", z3.And(c >= 0, c <= G))
+        V.oblige("internal:no-holding-group-is-missed", z3.Implies(z3.And(0 <= g, g < G, holds(g)), z3.And(0 <= inv(g), inv(g) < c, at(inv(g)) == g)))
+        V.oblige("internal:one-dimensional-no-longer-than-the-list", z3.And(c >= 0, c <= G))
 
     def mustfail(self, V, variant, env, outcome):
         r = outcome[1]
         if isinstance(r, Vec):
             V.oblige("mustfail:never-finds-anything", zint(r.length) == 0, kind="mustfail")
+
+
+class TooHighEnergy(Contract):
+    """WITHDRAWN from the verdict (kept for reference, listed in WITHDRAWN, not in CONTRACTS): property C13 does not state *which* cells the
+    combined step selects, so a change of the selection rule is not a violation of C13 (DESIGN 12.7).
+    determine_rate_cells_with_too_high_energy(E, limit, T) = the strictly ascending indices of exactly the cells with
+    E_i * 1000 / (k_B N_A T) > limit (what cut_and_merge hands to delete_rate_cells); energies untouched; both print branches."""
+    target = f"{REL}::determine_rate_cells_with_too_high_energy"
+    variants = ("default",)
+    property_ids = ("C13",)
+    expected = ("post:indices-strictly-ascending", "post:every-index-is-above-the-limit", "post:no-cell-above-the-limit-is-missed")
+
+    def setup(self, V, variant):
+        from pyvc.lib_np import KB, NA
+        n = V.int("n", lo=0)
+        E = V.vec("energies", n, "real")
+        lim = Num(z3.Real("energy_limit"), False)
+        T = Num(z3.Real("T"), False)
+        V.ctx.assume(T.z > 0)
+        above = lambda i: E.zfun(i) * 1000 / (KB * NA * T.z) > lim.z
+        V.env.update(n=n, E=E, above=above)
+        return [E], {"energy_limit": lim, "T": T}
+
+    def post(self, V, variant, env, outcome):
+        ctx = V.ctx
+        if outcome[0] != "return":
+            V.oblige(f"post:no-exception[{outcome[1]}]", False)
+            return
+        r = outcome[1]
+        if not isinstance(r, Vec) or r.elem != "int":
+            V.oblige("post:returns-an-integer-array", False)
+            return
+        fo = getattr(r, "filter_of", None)
+        if fo is None:
+            raise Unsupported("result is not recognisable as np.where(...)[0] (filter contract)")
+        n, E, above = env["n"], env["E"], env["above"]
+        c = zint(r.length)
+        k1, k2, g = z3.Int("k13h"), z3.Int("kk13h"), z3.Int("g13h")
+        at = lambda k: zint(to_num(vget(ctx, r, k)).z)
+        V.oblige("post:indices-strictly-ascending", z3.Implies(z3.And(0 <= k1, k1 < k2, k2 < c), at(k1) < at(k2)))
+        V.oblige("post:every-index-is-above-the-limit", z3.Implies(z3.And(0 <= k1, k1 < c), z3.And(at(k1) >= 0, at(k1) < n, above(at(k1)))))
+        inv = fo[3]
+        V.oblige("post:no-cell-above-the-limit-is-missed", z3.Implies(z3.And(0 <= g, g < n, above(g)), z3.And(0 <= inv(g), inv(g) < c, at(inv(g)) == g)))
+        V.forall("frame:energies-unchanged", n, lambda kk: as_real(to_num(vget(ctx, E, kk))) == E.zfun(kk))
+
+    def mustfail(self, V, variant, env, outcome):
+        r = outcome[1]
+        if isinstance(r, Vec):
+            V.oblige("mustfail:every-cell-is-too-high", zint(r.length) == env["n"], kind="mustfail")
+
+
+class CellsToJoin(Contract):
+    """WITHDRAWN from the verdict, see TooHighEnergy.
+    determine_rate_cells_to_join(distances, V, threshold, T) = one pair [row_p, col_p] for exactly the stored positions p of the
+    distance matrix with |V_row - V_col| * 1000 / (k_B N_A T) < threshold, in stored order (the join lists of cut_and_merge)."""
+    target = f"{REL}::determine_rate_cells_to_join"
+    variants = ("csr",)
+    property_ids = ("C13",)
+    expected = ("post:pair-k-is-a-stored-neighbour-pair", "post:pair-k-is-below-the-threshold", "post:no-pair-below-the-threshold-is-missed")
+
+    def setup(self, V, variant):
+        from pyvc.lib_np import KB, NA
+        n = V.int("n", lo=1)
+        D, pat, data = csr_input(V, "D", n)
+        P = V.vec("potentials", n, "real")
+        thr = Num(z3.Real("bottom_treshold"), False)
+        T = Num(z3.Real("T"), False)
+        V.ctx.assume(T.z > 0)
+        row, col = pat.row.zfun, pat.col.zfun
+        d = lambda p: (P.zfun(row(p)) - P.zfun(col(p))) * 1000
+        close = lambda p: z3.If(d(p) >= 0, d(p), -d(p)) / (KB * NA * T.z) < thr.z
+        V.env.update(n=n, D=D, pat=pat, P=P, close=close, row=row, col=col)
+        self._env = V.env
+        return [D, P], {"bottom_treshold": thr, "T": T}
+
+    @property
+    def observe(self):
+        def hook(interp, frame, val):
+            self._env["frames"] = val
+        return {"high_e_frames": hook}
+
+    def post(self, V, variant, env, outcome):
+        ctx = V.ctx
+        if outcome[0] != "return":
+            V.oblige(f"post:no-exception[{outcome[1]}]", False)
+            return
+        L = outcome[1]
+        hf = env.get("frames")
+        if not isinstance(L, Vec) or not isinstance(hf, Vec) or getattr(hf, "filter_of", None) is None:
+            raise Unsupported("pairs / selected positions not recognisable (filter contract)")
+        nnz, row, col, close = zint(env["pat"].nnz), env["row"], env["col"], env["close"]
+        c = zint(hf.length)
+        k1, k2, p = z3.Int("k13j"), z3.Int("kk13j"), z3.Int("p13j")
+        pos = lambda k: zint(to_num(vget(ctx, hf, k)).z)
+        V.oblige("post:one-pair-per-selected-position", zint(L.length) == c)
+        V.oblige("post:positions-in-stored-order", z3.Implies(z3.And(0 <= k1, k1 < k2, k2 < c), pos(k1) < pos(k2)))
+        ctx.binder_stack.append([])
+        try:
+            pair = vget(ctx, L, k1)
+        finally:
+            ctx.binder_stack.pop()
+        if not isinstance(pair, Vec) or conc(pair.length) != 2:
+            V.oblige("post:pairs-are-two-element-lists", False)
+            return
+        a, b = zint(to_num(vget(ctx, pair, 0)).z), zint(to_num(vget(ctx, pair, 1)).z)
+        V.oblige("post:pair-k-is-a-stored-neighbour-pair",
+                 z3.Implies(z3.And(0 <= k1, k1 < c), z3.And(pos(k1) >= 0, pos(k1) < nnz, a == row(pos(k1)), b == col(pos(k1)))))
+        n = env["n"]
+        valid = lambda q: z3.And(row(q) >= 0, row(q) < n, col(q) >= 0, col(q) < n)      # precondition on the stored pattern (csr_input)
+        V.oblige("post:pair-k-is-below-the-threshold", z3.Implies(z3.And(0 <= k1, k1 < c, valid(pos(k1))), close(pos(k1))))
+        inv = hf.filter_of[3]
+        V.oblige("post:no-pair-below-the-threshold-is-missed", z3.Implies(z3.And(0 <= p, p < nnz, valid(p), close(p)), z3.And(0 <= inv(p), inv(p) < c, pos(inv(p)) == p)))
+        V.forall("frame:potentials-unchanged", env["n"], lambda kk: as_real(to_num(vget(ctx, env["P"], kk))) == env["P"].zfun(kk))
+
+    def mustfail(self, V, variant, env, outcome):
+        hf = env.get("frames")
+        if isinstance(hf, Vec):
+            V.oblige("mustfail:every-stored-pair-is-joined", zint(hf.length) == zint(env["pat"].nnz), kind="mustfail")
 
 
 class DeleteRateCells(Contract):
@@ -268,7 +388,7 @@ class DeleteRateCells(Contract):
         u = lambda x: zint(to_num(vget(ctx, keep, x)).z)
         w = lambda x: zint(to_num(vget(ctx, fi, x)).z)
         rng = z3.And(a >= 0, a < c, b >= 0, b < c)
-        V.oblige("post:fmt-kept", z3.BoolVal(R.fmt == "csr"))
+        V.oblige("internal:fmt-kept", z3.BoolVal(R.fmt == "csr"))
         V.oblige("post:reduced-shape", z3.And(zint(R.nrows) == c, zint(R.ncols) == c))
         V.oblige("post:off-diagonal-entries-are-the-original-ones",
                  z3.Implies(z3.And(rng, a != b), as_real(R.dense(ctx, a, b)) == as_real(M.dense(ctx, u(a), u(b)))))
@@ -417,6 +537,9 @@ class OpaqueFn(Contract):
 
 DeleteRateCellsKeep.apply = lambda self, interp, func, args, kwargs: ReducerAssumed(self.target, "to_remove").apply(interp, func, args, kwargs)
 DeleteRateCells.apply = DeleteRateCellsKeep.apply
+TooHighEnergy.apply = lambda self, interp, func, args, kwargs: Opaque("cells")
+CellsToJoin.apply = lambda self, interp, func, args, kwargs: Opaque("cells")
+WITHDRAWN = [TooHighEnergy(), CellsToJoin()]
 CONTRACTS = [SqraNormalize(), FindElWithinNestedList(), DeleteRateCellsKeep(), DeleteRateCells(), CutAndMerge()]
 CALLEE_CONTRACTS = [ReducerAssumed(f"{REL}::merge_matrix_cells", "all_to_join"), OpaqueFn(f"{REL}::determine_rate_cells_to_join"),
                     OpaqueFn(f"{REL}::determine_rate_cells_with_too_high_energy")]
